@@ -177,6 +177,8 @@ impl<W, R, T> Runtime<W, R, T> {
                 );
             }
             if usize::from(stats.size) > max_size {
+                // the value is never constructed, so nothing will ever return these bytes
+                stats.size -= size;
                 Err(RuntimeViolation::AllocationLimitReached)
             } else {
                 Ok(size)
